@@ -115,6 +115,24 @@ func runFreshBig(c *Ctx, r *Rep) {
 					if !ok {
 						return true
 					}
+					// a three-address math/big operation handed around as a value (op := (*big.Int).Add; op(z, x, y)) overwrites
+					// its first argument just the same
+					if Callee(info, call) == nil && len(call.Args) >= 1 {
+						if tv, ok := info.Types[call.Fun]; ok && !tv.IsType() {
+							if sig, ok := tv.Type.Underlying().(*types.Signature); ok && sig.Params().Len() >= 1 && sig.Results().Len() == 1 &&
+								strings.HasSuffix(sig.Params().At(0).Type().String(), "*math/big.Int") && strings.HasSuffix(sig.Results().At(0).Type().String(), "*math/big.Int") {
+								n++
+								recv := stripConv(info, call.Args[0])
+								key := fmt.Sprintf("bigrecv|%s|%s(%s, …)", id, exprStr(call.Fun), normStr(info, call.Args[0]))
+								if freshBig(info, recv, defs, 0) {
+									r.ok(key, call.Pos(), "the destination handed to the math/big operation value was allocated by this function")
+								} else {
+									r.bad(key, call.Pos(), "%s is a math/big operation passed as a value; called as %s(%s, …) it overwrites its first argument, which this function did not allocate (an operand, a conversion result such as ConvertToBigInt's, or a shared constant): Python ints are immutable and these values are shared, so the next user of that object computes with a corrupted number; allocate the destination with new(big.Int)", exprStr(call.Fun), exprStr(call.Fun), exprStr(call.Args[0]))
+								}
+								return true
+							}
+						}
+					}
 					sel, ok := call.Fun.(*ast.SelectorExpr)
 					if !ok {
 						return true
@@ -122,6 +140,10 @@ func runFreshBig(c *Ctx, r *Rep) {
 					fn := Callee(info, call)
 					if fn == nil || fn.Pkg() == nil || fn.Pkg().Path() != "math/big" || !bigMutators[fn.Name()] {
 						return true
+					}
+					if tv, ok := info.Types[sel.X]; ok && tv.IsType() && len(call.Args) >= 1 {
+						// method expression called directly: (*big.Int).Add(z, x, y)
+						sel = &ast.SelectorExpr{X: call.Args[0], Sel: sel.Sel}
 					}
 					sig, _ := fn.Type().(*types.Signature)
 					if sig == nil || sig.Recv() == nil || !strings.HasSuffix(sig.Recv().Type().String(), "big.Int") {
